@@ -11,7 +11,7 @@ RULE = ("(a) aln_param_init enumerated exhaustively over 2 kinds x 6 type consta
         "value vectors against a model transcribed from README/aln_param.c (expected FAIL for protein types on nucleotides and "
         "nucleotide types on protein); (b) end to end: for every documented --type word (and no --type) x 8 override subsets, "
         "the aln_param in effect inside kalign_run - observed through the guarded PARAMS hook for the library and through "
-        "KALIGN_VERIF_DUMP for the CLI binary - equals the model's, and mismatching words are rejected; (c) Hypothesis: generated "
+        "KALIGN_VERIF_DUMP for the CLI binary - equals the model's, and mismatching words are rejected; 84 of the library cells are repeated as the second alignment of a process whose first one gave all three penalties (nothing of an earlier call may stay in effect); (c) Hypothesis: generated "
         "input x type x subset: run with the type's defaults given explicitly == default run, CLI word run == library constant "
         "run (rows identical); a case is discriminating (non-trivial) when a different parameter set changes the alignment of "
         "that input. Non-trivial/distinct = distinct grid cells + discriminating generated cases.")
@@ -155,22 +155,28 @@ def run_lib_cell(g):
     names, seqs = DNA_SET if g["biotype"] == 1 else PROT_SET
     wd = runner.workdir()
     fp = wd.write(kal.fasta_bytes(names, seqs), ".fa")
-    pr = runner.run_probe(["hook 0 0 1", "read 0 1 %s" % fp, "run 0 1 %d %s" % (g["type"], _pen_tokens(g)), "free 0"])
-    if pr.ended.bad or pr.steps is None or len(pr.steps) < 3:
+    pre = []
+    if g.get("prev"):
+        # an earlier alignment in the same process, same input and type, other penalties: nothing of it may remain in effect
+        pv = g["prev"]
+        pre = ["read 1 1 %s" % fp, "run 1 1 %d %r %r %r" % (g["type"], float(pv[0]), float(pv[1]), float(pv[2])), "free 1"]
+    pr = runner.run_probe(["hook 0 0 1"] + pre + ["read 0 1 %s" % fp, "run 0 1 %d %s" % (g["type"], _pen_tokens(g)), "free 0"])
+    at = 2 + len(pre)
+    if pr.ended.bad or pr.steps is None or len(pr.steps) < at + 1:
         return engine.violation({"what": "process failure", **pr.ended.brief(), "grid": g}, kind="crash")
-    s = pr.steps[2]
+    s = pr.steps[at]
     exp = params_model.expected(g["biotype"], g["type"], g["gpo"], g["gpe"], g["tgpe"])
     fid = finding_for(g["biotype"], g["type"])
     if exp is None:
         if s["rc"] == 0:
             return engine.violation({"what": "kalign_run accepted type %d for biotype %d" % (g["type"], g["biotype"]), "grid": g}, finding=fid)
-        return engine.ok(True, ["lib_reject"], None, key="lib:%r" % sorted(g.items()))
+        return engine.ok(True, ["lib_reject"], None, key="lib:%r" % sorted(g.items(), key=str))
     if s["rc"] != 0 or not s.get("params"):
         return engine.violation({"what": "kalign_run rejected an admissible combination / no PARAMS event", "grid": g}, kind="status")
     bad = cmp_params(s["params"], exp)
     if bad:
-        return engine.violation({"what": "kalign_run used " + bad, "grid": g}, finding=fid)
-    return engine.ok(True, ["lib_ok"], None, key="lib:%r" % sorted(g.items()))
+        return engine.violation({"what": "kalign_run used " + bad + (" (after an earlier run with penalties %r)" % (g["prev"],) if g.get("prev") else ""), "grid": g}, finding=fid)
+    return engine.ok(True, ["lib_ok"] + (["after_earlier_run"] if g.get("prev") else []), None, key="lib:%r" % sorted(g.items(), key=str))
 
 
 def run_cli_cell(g):
@@ -230,11 +236,14 @@ def extra(tier, seed, stats):
         c = {"leg": "lib", "biotype": bt, "type": t, "gpo": v[0] if sub & 1 else -1.0, "gpe": v[1] if sub & 2 else -1.0,
              "tgpe": v[2] if sub & 4 else -1.0}
         _account(stats, {"grid": c}, run_lib_cell(c), out)
+        if v is VALS[1] and sub != 7:
+            # the same cell as the second alignment of a process whose first one gave all three penalties
+            _account(stats, {"grid": dict(c, prev=[55.5, 11.25, 3.5])}, run_lib_cell(dict(c, prev=[55.5, 11.25, 3.5])), out)
     for bt, w, sub, v in itertools.product((0, 1), WORDS, range(8), VALS[1:]):
         c = {"leg": "cli", "biotype": bt, "word": w, "gpo": v[0] if sub & 1 else -1.0, "gpe": v[1] if sub & 2 else -1.0,
              "tgpe": v[2] if sub & 4 else -1.0}
         _account(stats, {"grid": c}, run_cli_cell(c), out)
-    stats.extra["exhaustive_grid_cells"] = len(cells) + 192 + 192
+    stats.extra["exhaustive_grid_cells"] = len(cells) + 192 + 84 + 192
     return out
 
 
